@@ -174,3 +174,64 @@ package cli
 //@ before ApplyNow assert same(arg2, records)
 //@ before AggregateTotalsByTags assert same(arg0, closed) && same(arg0, records)
 //@ ensures true
+
+// ---------------------------------------------------------------------------------------------
+// start.go / stop.go / switch.go / track.go / create.go — glue of the manipulating commands (properties C17, C03),
+// cuts only: the date and the time that AtDate / AtTime computed are the ones that reach the reconciler's creators
+// and operations; `klog stop` looks at the day before that date as its only fallback.
+//@ func (*Start).Run
+//@ requires opt != nil && nonnil(ctx)
+//@ noframe
+//@ cutsonly
+//@ before NewReconcilerAtRecord assert arg0 == date
+//@ before NewReconcilerForNewRecord assert arg0 == date
+//@ ensures true
+//@ func (*Start).Run$2
+//@ noframe
+//@ cutsonly
+//@ before StartOpenRange assert arg1 == time
+//@ ensures true
+
+//@ func (*Stop).Run
+//@ requires opt != nil && nonnil(ctx)
+//@ noframe
+//@ cutsonly
+//@ before PlusDays assert arg0 == -1
+//@ before NewReconcilerAtRecord assert arg0 == date
+//@ ensures true
+//@ func (*Stop).Run$1
+//@ noframe
+//@ cutsonly
+//@ before NewReconcilerAtRecord assert arg0 == yesterday && shouldTryYesterday
+//@ ensures true
+
+//@ func (*Switch).Run
+//@ requires opt != nil && nonnil(ctx)
+//@ noframe
+//@ cutsonly
+//@ before NewReconcilerAtRecord assert arg0 == date
+//@ ensures true
+//@ func (*Switch).Run$1
+//@ noframe
+//@ cutsonly
+//@ before CloseOpenRange assert arg1 == time && len(arg3) == 0
+//@ ensures true
+//@ func (*Switch).Run$2
+//@ noframe
+//@ cutsonly
+//@ before StartOpenRange assert arg1 == time
+//@ ensures true
+
+//@ func (*Track).Run
+//@ requires opt != nil && nonnil(ctx)
+//@ noframe
+//@ cutsonly
+//@ before NewReconcilerAtRecord assert arg0 == date
+//@ before NewReconcilerForNewRecord assert arg0 == date
+//@ ensures true
+//@ func (*Create).Run
+//@ requires opt != nil && nonnil(ctx)
+//@ noframe
+//@ cutsonly
+//@ before NewReconcilerForNewRecord assert arg0 == date
+//@ ensures true
